@@ -254,6 +254,7 @@ CLAIMED["C19"] = {
             "value of every such type. In crates with a serialised regex no RegexBuilder option is set, so every compiled expression is determined by the pattern text that is serialised. "
             "`deserialize_with` adapters are found through the nested __DeserializeWith impls of the generated visitors. "
             "For every enum, the variant index the generated Serialize writes equals the index under which the generated identifier visitor restores the same variant (a skipped variant in the middle shifts one side only); every public tokenising method of the serialisable *checked* vectoriser parameters tests the tokenizer guard first; hand-written Clone impls copy every field (the guard included). "
+            "No array with a known non-standard memory layout (stack / concatenate along an axis > 0, reversed_axes / permuted_axes, a transposed view copied with to_owned, an `.f()` shape, or the result of a workspace function returning one of these) is stored in a field of a serialisable type: ndarray restores every array in standard layout, and layout-dependent summation orders would differ after the round trip. "
             "Not decided: bit-level behaviour of third-party serialisers.",
     "design_ref": "DESIGN.md section 4, C19",
     "note": "Trusted: serde_derive's expansion (the pinned version's output is what is analysed), serde impls of std/ndarray/sprs/rand_xoshiro/serde_regex, the format crate.",
